@@ -251,7 +251,11 @@ func Fidelity(r *Runner, realBin, base string, tape *sim.Tape) (diff string, sha
 	if err != nil {
 		return "", shape, 0, err
 	}
-	fac := normFromFacade(root, co.Trace)
+	facRoot := root
+	if c.Inv.Chroot {
+		facRoot = "/" // the child saw the scenario root as its file-system root
+	}
+	fac := normFromFacade(facRoot, co.Trace)
 	// the unmodified binary on a fresh copy of the tree
 	os.RemoveAll(root)
 	if err := c.Tree.Materialise(root); err != nil {
